@@ -879,7 +879,7 @@ pub fn run(args: &Args, sink: &mut Sink, st: &mut Streams) {
         "exhaustive: all {} duplicate-free lists over ids 0..={} of length <= {}: from_slice, accessors, every slice, every deletion subset, every position mask, with_new_high; split in two segments: every allow-mask for mask_to_offset_ranges, every position mask, every deletion, every slice; all {} subsets of 0..{} under {} affine id maps (boundaries 2^16, 2^32, 2^62, 2^64): from_slice",
         lists.len(), max_id, max_len, 1u64 << sorted_n, sorted_n, transforms.len()
     ));
-    exhaustive_lists(sink, st, &lists, max_id, true, args.thorough());
+    exhaustive_lists(sink, st, &lists, max_id, true, false);
     if args.thorough() {
         // DESIGN X: ids <= 12, length <= 5, all masks - for the increasing lists (the unsorted ones are covered above up to id 5)
         let wide: Vec<Vec<u64>> = subsets(13).into_iter().filter(|l| l.len() <= 5 && l.iter().any(|x| *x > max_id)).collect();
